@@ -357,6 +357,8 @@ void ev(const char* kind, uint64_t a, uint64_t b, uint64_t c) {
   fold(a);
   fold(b);
   fold(c);
+  static int trace_now = getenv("VSIM_TRACE") ? 1 : 0; // debugging aid: print events as they happen
+  if (trace_now) fprintf(stderr, "EV %s %llu %llu %llu\n", kind, (unsigned long long)a, (unsigned long long)b, (unsigned long long)c);
   if (g_keep_events) {
     if (r.events.size() < 20000) r.events.push_back({kind, a, b, c});
   }
@@ -694,7 +696,7 @@ static Outcome eval_forked(const TapeSpec& spec, bool verbose, double timeout_s 
   if (pid < 0) harness_bug("fork failed");
   if (pid == 0) {
     close(fds[0]);
-    int efd = open(errpath.c_str(), O_CREAT | O_TRUNC | O_WRONLY, 0600);
+    int efd = getenv("VSIM_TRACE") ? -1 : open(errpath.c_str(), O_CREAT | O_TRUNC | O_WRONLY, 0600);
     if (efd >= 0) {
       dup2(efd, 2);
       close(efd);
